@@ -114,6 +114,21 @@ async fn run_history(c: &Value) -> Value {
           let _ = p.write_all(format!("S2M_AUTH_ACK id={} succeeded=true username=u\n", id).as_bytes()).await;
         }
       },
+      "reply_payload" => {
+        // a reply that carries a payload whose bytes look like another reply line
+        let id = op["id"].as_u64().unwrap();
+        let inner = op["inner_id"].as_u64().unwrap();
+        if let Some(p) = peer.as_mut() {
+          let payload = format!("S2M_AUTH_ACK id={} succeeded=true username=mallory", inner);
+          let frame = format!(
+            "S2M_FORWARD_BROADCAST_PAYLOAD_ACK id={} valid=true altered_payload=true altered_payload_length={}\n{}\n",
+            id,
+            payload.len(),
+            payload
+          );
+          let _ = p.write_all(frame.as_bytes()).await;
+        }
+      },
       "ping" => {
         let id = op["id"].as_u64().unwrap();
         if let Some(p) = peer.as_mut() {
